@@ -55,10 +55,22 @@ fn stack_walker(g: &mut Gen, model: &Model, tree: &[Node], has_links: bool, stat
 pub fn gen_stack_scenario(rng: &mut Rng, tier: Tier, stats: &mut GenStats, prop: &str, max_layers: usize, max_walkers: usize) -> Scenario {
     let mut g = Gen::new(rng, tier);
     g.spine_odds = 15;
-    let links = if g.rng.chance(2, 10) { LinkMode::Safe } else { LinkMode::None };
-    let tree = g.tree(links);
+    // Mostly fault-free; in a fifth of the runs the tree also carries faults (bad links, restricted
+    // directories), because "what was yielded just before" includes error items. The differential
+    // reference sees the same faults, so no clause changes.
+    let links = match g.rng.below(20) {
+        0..=12 => LinkMode::None,
+        13..=16 => LinkMode::Safe,
+        _ => LinkMode::All,
+    };
+    let mut tree = g.tree(links);
+    let model0 = Model::from_tree(&tree).unwrap();
+    let cwd = g.pick_dir(&model0, 50);
+    if g.rng.chance(1, 10) {
+        // bases are drawn later from directories that are still plain
+        crate::props::c20::plant_modes(&mut g, &mut tree, &[cwd.clone()]);
+    }
     let model = Model::from_tree(&tree).unwrap();
-    let cwd = g.pick_dir(&model, 50);
     let has_links = tree.iter().any(|n| matches!(n.kind, Kind::Link { .. }));
     // Stacks must not share hidden state: sometimes two independent stacks are advanced alternately.
     let nw = if max_walkers > 1 && g.rng.chance(1, 8) { 2 } else { 1 };
